@@ -1111,3 +1111,115 @@ func TestVerifC09Crash(t *testing.T) {
 	}
 	c.res.write()
 }
+
+// ---------------------------------------------------------------- TestVerifC09Lengths
+
+// TestVerifC09Lengths: one DeleteRange over n stored entries, for every n up to 40 and around the round numbers up
+// to 4096 (code that works through a range in blocks has its boundaries along this axis), at the head, in the
+// middle and at the tail of the log, in both encodings, compared with a plain map before and after a reopen.
+func TestVerifC09Lengths(t *testing.T) {
+	shard, nshards := v9Env("VERIF_SHARD", 0), v9Env("VERIF_NSHARDS", 1)
+	c := v9Setup(t)
+	defer os.RemoveAll(c.base)
+	var lens []int
+	for n := 1; n <= 40; n++ {
+		lens = append(lens, n)
+	}
+	for _, p := range []int{64, 100, 128, 256, 500, 512, 1000, 1024, 2048, 4096} {
+		for d := -1; d <= 2; d++ {
+			lens = append(lens, p+d)
+		}
+	}
+	job := 0
+	for _, pbuf := range []bool{true, false} {
+		for _, n := range lens {
+			for _, where := range []string{"head", "middle", "tail"} {
+				job++
+				if job%nshards != shard {
+					continue
+				}
+				if !c.deadline.IsZero() && time.Now().After(c.deadline) {
+					c.res.Exhaustive = false
+					continue
+				}
+				dir := fmt.Sprintf("%s/len-%v-%d-%s", c.base, pbuf, n, where)
+				s, err := v9Open(dir, pbuf)
+				if err != nil {
+					t.Fatal(err)
+				}
+				total := uint64(n + 4)
+				want := map[uint64][]byte{}
+				var logs []*raft.Log
+				for idx := uint64(1); idx <= total; idx++ {
+					m := &robust.Message{Id: robust.Id{Id: robust.MessageOffset + idx}, Session: robust.Id{Id: robust.MessageOffset + 1}, Type: robust.IRCFromClient, Data: fmt.Sprintf("PING %d", idx), UnixNano: int64(1600000000e9) + int64(idx)}
+					data := v9JSONMsg(m)
+					if pbuf {
+						data = v9ProtoMsg(m)
+					}
+					want[idx] = data
+					logs = append(logs, &raft.Log{Index: idx, Term: 3, Type: raft.LogCommand, Data: data})
+					if len(logs) == 500 || idx == total {
+						if err := s.StoreLogs(logs); err != nil {
+							t.Fatal(err)
+						}
+						logs = nil
+					}
+				}
+				lo, hi := uint64(1), uint64(n)
+				switch where {
+				case "middle":
+					lo, hi = 3, uint64(n)+2
+				case "tail":
+					lo, hi = total-uint64(n)+1, total
+				}
+				ops := []string{fmt.Sprintf("StoreLogs 1..%d (encoding protobuf=%v)", total, pbuf), fmt.Sprintf("DeleteRange(%d, %d): %d entries at the %s", lo, hi, n, where)}
+				if err := s.DeleteRange(lo, hi); err != nil {
+					c.res.report("DeleteRange fails", err.Error(), ops, nil)
+				}
+				for idx := lo; idx <= hi; idx++ {
+					delete(want, idx)
+				}
+				c.res.Sequences++
+				c.res.Operations += 2
+				check := func(after string) {
+					first, last := uint64(0), uint64(0)
+					for idx := range want {
+						if first == 0 || idx < first {
+							first = idx
+						}
+						if idx > last {
+							last = idx
+						}
+					}
+					if f, err := s.FirstIndex(); err != nil || f != first {
+						c.res.report("FirstIndex wrong after a range deletion ("+after+")", fmt.Sprintf("%d entries deleted at the %s: FirstIndex %d (%v), the model says %d", n, where, f, err, first), ops, nil)
+					}
+					if l, err := s.LastIndex(); err != nil || l != last {
+						c.res.report("LastIndex wrong after a range deletion ("+after+")", fmt.Sprintf("%d entries deleted at the %s: LastIndex %d (%v), the model says %d", n, where, l, err, last), ops, nil)
+					}
+					for idx := uint64(1); idx <= total; idx++ {
+						var l raft.Log
+						err := s.GetLog(idx, &l)
+						c.res.Reads++
+						w, ok := want[idx]
+						switch {
+						case ok && (err != nil || l.Index != idx || l.Term != 3 || string(l.Data) != string(w)):
+							c.res.report("a stored entry is wrong or missing after a range deletion ("+after+")", fmt.Sprintf("%d entries deleted at the %s: GetLog(%d): %v", n, where, idx, err), ops, nil)
+						case !ok && err != raft.ErrLogNotFound:
+							c.res.report("a deleted entry is still there after a range deletion ("+after+")", fmt.Sprintf("%d entries deleted at the %s (%d..%d): GetLog(%d) answers %v instead of raft.ErrLogNotFound", n, where, lo, hi, idx, err), ops, nil)
+						}
+					}
+				}
+				check("same process")
+				s.Close()
+				if s, err = v9Open(dir, pbuf); err != nil {
+					t.Fatal(err)
+				}
+				check("after reopen")
+				s.Close()
+				os.RemoveAll(dir)
+			}
+		}
+	}
+	c.res.write()
+}
